@@ -24,7 +24,8 @@
  *   copyout(pos,n) : copies min(n,len-pos) bytes starting at pos, buffer unchanged
  *   move(dst,src,n): min(n,src.len) front bytes of src are appended to dst
  *   search(what,wlen,start,end): smallest p >= start with p+wlen <= len,
- *                    (end >= 0: p+wlen <= end), d[p..p+wlen) == what; else -1; wlen==0 -> -1
+ *                    (end >= 0: p+wlen <= end), d[p..p+wlen) == what; else -1;
+ *                    the empty string (wlen==0) is found at 'start' itself
  *   eol(start,style,&eol_len): first EOL at or after start, per enum evbuffer_eol_style:
  *       ANY          first CR or LF; EOL = maximal run of CR/LF characters from there
  *       CRLF         first LF; if the byte before it (and not before start) is CR the
@@ -127,7 +128,8 @@ static size_t vpb_move_front(struct vpb *dst, struct vpb *src)
 static long vpb_search(const struct vpb *m, const unsigned char *what, size_t wlen, size_t start, long end)
 {
 	size_t p, j;
-	if (wlen == 0 || wlen > m->len) return -1;
+	if (wlen == 0) return start <= m->len ? (long)start : -1;
+	if (wlen > m->len) return -1;
 	for (p = 0; p < VP_BYTES_MAX; p++) {
 		int ok = 1;
 		if (p < start) continue;
